@@ -45,6 +45,11 @@ CLAIMS = {
         technique="Lean 4 `decide` theorems over the table of ALL entropy sites (getpid/time/clock/srand/rand/...) regenerated from the source with their randomize guards; two-process byte-identity runs of stochastic scenarios under different pid, start second, TMP, cwd, environment",
         text="C12_sites: every entropy site is non-semantic (timing, temp-file name), reached only with randomize=true, or made deterministic (rand() re-seeded in Simulation::setup); C12_seed_const: with randomize off no seed depends on pid or clock. PARTIAL: non-interference through uninitialised memory or address-ordered containers is a run-time fact; it is covered only by the two-process comparison (byte-identical observer dumps).",
         note=BASE_NOTE + "PARTIAL as stated. The site classifier of the translator (enclosing function, if/else randomize guard) is heuristic text analysis; a site it cannot classify is reported as unguarded, which fails C12_sites."),
+    "C19": dict(
+        level="proof", design="DESIGN.md section 3, C19",
+        technique="Lean 4 proofs about the per-component treatment of bonded pairs regenerated from the three sites of colour_pair.cpp (with their periodicity guard) and a model of the connected-list refresh and the bonded force loop; correspondence of every listed bond vector with the real binary; property oracle on the dumps",
+        text="C19_current_periodic: the refreshed component is the minimum image (k in {-1,0,1}, range [-L/2,L/2], no nearer image); C19_current_nonperiodic: in a walled direction it is the plain difference however long the bond; creation = refresh; each listed bond is evaluated exactly once per pass and no other pair; the vector depends only on the current positions of the two partners and the box (not on cutoff, grid or pair creator).",
+        note=BASE_NOTE + "Hypothesis: partners lie inside the box (C09). The iteration over the SmartList is the one verified under C15. Bit growth beyond 53 bits in multi-step runs: bonds whose plain difference is not exactly representable are compared by the oracle with a 2^-36 slack and left out of the exact model comparison (counted in the evidence)."),
 }
 
 
